@@ -35,6 +35,9 @@ def joinComps : List Path → Path
 /-- SPEC: path `p` equals or lies inside directory `d`, comparing whole components. -/
 def Within (d p : Path) : Prop := comps d <+: comps p
 
+/-- decidable twin of `Within` (used by the oracles) -/
+def withinB (d p : Path) : Bool := (comps d).isPrefixOf (comps p)
+
 /-- a path is normal when it has no empty component (so it is non-empty, has no leading,
 trailing or doubled separator) -/
 def Normal (p : Path) : Prop := [] ∉ comps p
